@@ -1,5 +1,6 @@
 import Glom.Model.C04Shape
 import Glom.Generated.ExcFacts
+import Glom.Generated.TFacts
 import Glom.Generated.C04Facts
 /-
   The facts of C04 instantiated with what the extractor regenerated from /repo.
@@ -37,6 +38,12 @@ def parseSkip (s : String) : Option (List String) :=
 def expectedOuterSteps : List String :=
   ["debug-reraise", "if-glomerror", "copy", "set-wrapped", "else", "wrap", "end", "finalize-or-reraise"]
 
+/-- the classes a `_t_eval` branch turns into PathAccessError (extracted `tDispatch`) -/
+def dispatchCatch (op : String) : List String :=
+  match Generated.tDispatch.find? (·.1 == op) with
+  | some (_, _, cs) => cs
+  | none => ["?"]
+
 def genFacts : Facts :=
   { shapeOk :=
       Generated.glomOuterSteps == expectedOuterSteps &&
@@ -57,7 +64,9 @@ def genFacts : Facts :=
       (parseSkip Generated.coalesceSkipDefault).isSome &&
       (Generated.copyOverrides == [("TypeMatchError", "TypeMatchError", [2, 1])] ||
        Generated.copyOverrides == [("TypeMatchError", "type(self)", [2, 1])]) &&
-      (internalShape Generated.excCtor "TypeMatchError").isSome
+      internalShape Generated.excCtor "TypeMatchError" == some (.sig 2 (some 2) false .tme) &&
+      Generated.listIterShapeOk &&
+      Generated.entryPointsOk
     defIfSkip := ((parseDef Generated.glomDefaultIf).getD none)
     defElse := ((parseDef Generated.glomDefaultElse).getD none)
     skipIfMissing := (parseSkip Generated.glomSkipIf).getD []
@@ -68,12 +77,17 @@ def genFacts : Facts :=
     copyFallback := Generated.glomCopyFallback.contains "Exception"
     wrapArgsCheck := Generated.wrapArgsCheck
     wrapFallback := Generated.wrapFallback.contains "Exception"
+    wrapTypeInTry := Generated.wrapTypeInTry
+    attrGuarded := Generated.glomAttrGuarded
     errTestTruthy := Generated.glomErrTest == "truthy"
     tmeCopyFixed := Generated.copyOverrides == [("TypeMatchError", "TypeMatchError", [2, 1])]
-    tmeClass := repoClass "TypeMatchError"
-      ((internalShape Generated.excCtor "TypeMatchError").getD (.sig 0 none false .all))
+    tmeMro := tableMro Generated.excTable "TypeMatchError"
     frameCatch := Generated.frameCatch
     coalesceSkipDefault := (parseSkip Generated.coalesceSkipDefault).getD []
-    excMro := tableMro Generated.excTable }
+    iterCatch := Generated.listIterCatch
+    iterRaises := Generated.listIterRaises
+    getitemCatch := dispatchCatch "["
+    getattrCatch := dispatchCatch "."
+    pathCatch := dispatchCatch "P" }
 
 end Glom.C04
